@@ -1,5 +1,97 @@
-/- Driver for C16 (stub until the property's model is written). -/
+/- Driver for C16: replays the trigger-related system calls of the real qmail-queue instances and
+   qmail-send (qsim, every interleaving) through `Trigger.accept`; oracle: the daemon never sleeps while
+   a completed injection is unprocessed. -/
 import Drv.Util
-open Drv
-def handle (st : Stats) (_line : String) : IO Stats := return { st with cases := st.cases + 1 }
-def main : IO Unit := runDriver handle
+import Nq.Trigger
+
+open Nq Nq.Trigger Drv
+
+structure Case where
+  hdr : String := ""
+  st : Option St := some {}
+  nev : Nat := 0
+  num : List (String × Nat) := []     -- injector process → message number
+  bad : Bool := false
+
+structure D where
+  st : Stats := {}
+  c : Case := {}
+
+def feed (d : D) (ev : Ev) (what : String) : IO D := do
+  match d.c.st with
+  | none => return d
+  | some s =>
+    match accept s ev with
+    | some s' => return { d with c := { d.c with st := some s', nev := d.c.nev + 1 }, st := d.st.bump ("ev_" ++ what) }
+    | none =>
+      IO.println s!"DISAGREE {d.c.hdr} event#{d.c.nev + 1} rejected: {what} {repr ev}"
+      return { d with st := { d.st with disagree := d.st.disagree + 1 }, c := { d.c with st := none, bad := true } }
+
+def lastNum (path : String) : Option Nat := (path.splitOn "/").getLast?.bind (·.toNat?)
+
+def handle (d : D) (line : String) : IO D := do
+  let toks := fields line
+  match toks with
+  | "CASE" :: rest =>
+    let hl := " ".intercalate rest
+    let h := hashBytes hl.toUTF8.toList
+    let fresh := !d.st.seen.contains h
+    let mut st : Stats := { d.st with cases := d.st.cases + 1, seen := d.st.seen.insert h, nontrivial := d.st.nontrivial + (if fresh then 1 else 0) }
+    if st.samples < 3 then
+      IO.println s!"SAMPLE {hl}"
+      st := { st with samples := st.samples + 1 }
+    return { st := st, c := { hdr := hl } }
+  | "X" :: "sleeping-with-unprocessed-todo" :: rest =>
+    IO.println s!"ORACLE {d.c.hdr} why=daemon_sleeps_with_a_completed_injection_unprocessed {" ".intercalate rest}"
+    return { d with st := { d.st with oracle := d.st.oracle + 1 } }
+  | "T" :: "P0" :: _ :: "open_read" :: "lock/trigger" :: "->" :: r :: _ => if r == "-1" then return d else feed d .dOpen "dOpen"
+  | "T" :: "P0" :: _ :: "close_fifo" :: _ => feed d .dClose "dClose"
+  | "T" :: "P0" :: _ :: "opendir" :: "todo" :: "->" :: r :: _ => if r == "ok" then feed d .dOpendir "dOpendir" else return d
+  | "T" :: "P0" :: _ :: "readdir" :: "todo" :: "->" :: r :: _ =>
+    if r == "end" then feed d .dEnd "dEnd"
+    else match r.toNat? with
+      | some n =>
+        let seeNew := match d.c.st with
+          | some s => (match s.d with | .scanning rem => !rem.contains n | _ => false)
+          | none => false
+        let d ← if seeNew then feed d (.dSeeNew n) "dSeeNew" else pure d
+        feed d (.dRead n) "dRead"
+      | none => return d
+  | "T" :: p :: _ :: "link" :: _ :: b :: "->" :: r :: _ =>
+    if p == "P0" || p == "P1" || r != "0" || !b.startsWith "todo/" then return d else
+    match lastNum b with
+    | some n => feed { d with c := { d.c with num := (p, n) :: d.c.num } } (.iLink n) "iLink"
+    | none => return d
+  | "T" :: p :: _ :: "open_write" :: "lock/trigger" :: "->" :: r :: _ =>
+    match (d.c.num.find? (·.1 == p)).map (·.2) with
+    | some n => feed d (.iOpen n (r != "-1")) (if r != "-1" then "iOpen" else "iOpenENXIO")
+    | none => return d
+  | "T" :: p :: _ :: "write_fifo" :: rest =>
+    match (d.c.num.find? (·.1 == p)).map (·.2) with
+    | some n => feed d (.iWrite n (!rest.contains "-1")) (if rest.contains "-1" then "iWriteEPIPE" else "iWrite")
+    | none => return d
+  | "T" :: p :: _ :: "close_fifo" :: _ =>
+    match (d.c.num.find? (·.1 == p)).map (·.2) with
+    | some n => feed d (.iClose n) "iClose"
+    | none => return d
+  | "END" :: _ =>
+    -- at the end everything injected must have been processed
+    match d.c.st with
+    | some s =>
+      if !s.todo.isEmpty then
+        IO.println s!"ORACLE {d.c.hdr} why=run_ended_with_unprocessed_todo_entries"
+        return { d with st := { d.st with oracle := d.st.oracle + 1 } }
+      else return d
+    | none => return d
+  | _ => return d
+
+partial def loop2 (h : IO.FS.Stream) (d : D) : IO D := do
+  let line ← h.getLine
+  if line.isEmpty then return d
+  let d' ← handle d line
+  loop2 h d'
+
+def main : IO Unit := do
+  let stdin ← IO.getStdin
+  let d ← loop2 stdin {}
+  IO.println s!"STATS {d.st.json}"
